@@ -231,6 +231,8 @@ pub struct Report {
     pub digests: HashSet<u64>,
     /// cases known to be pairwise distinct by construction (exhaustive enumerations): counted, not stored
     pub distinct_by_construction: u64,
+    /// non-trivial evaluations whose digest was not stored because the per-shard cap was reached
+    pub digests_dropped: u64,
     pub classes: BTreeMap<String, u64>,
     pub required: BTreeSet<String>,
     /// classes that must be observed by *this item* (checked by the runner when the item ends)
@@ -248,6 +250,8 @@ pub struct Report {
 }
 
 pub const MAX_SAMPLES: usize = 24;
+pub const MAX_DIGESTS_PER_SHARD: usize = 4_000_000;
+pub const MAX_DIGESTS_TOTAL: usize = 60_000_000;
 pub const MAX_SIGNATURES: usize = 60;
 
 impl Report {
@@ -260,7 +264,12 @@ impl Report {
     pub fn eval(&mut self, d: u64, nontrivial: bool) {
         self.evaluations += 1;
         if nontrivial {
-            self.digests.insert(d);
+            // exact up to a cap per shard; beyond it the count is a lower bound (noted in the report)
+            if self.digests.len() < MAX_DIGESTS_PER_SHARD {
+                self.digests.insert(d);
+            } else {
+                self.digests_dropped += 1;
+            }
         }
     }
     /// Record one evaluation of a case that is distinct from every other by construction (an
@@ -369,10 +378,15 @@ impl Report {
     pub fn merge(&mut self, o: Report) {
         self.evaluations += o.evaluations;
         self.distinct_by_construction += o.distinct_by_construction;
+        self.digests_dropped += o.digests_dropped;
         if self.digests.is_empty() {
             self.digests = o.digests;
-        } else {
+        } else if self.digests.len() + o.digests.len() <= MAX_DIGESTS_TOTAL {
             self.digests.extend(o.digests);
+        } else {
+            // keep memory bounded: count the shard's distinct digests without storing them (shards
+            // use disjoint (item, case) digests, so this does not over-count)
+            self.distinct_by_construction += o.digests.len() as u64;
         }
         for (k, v) in o.classes {
             *self.classes.entry(k).or_insert(0) += v;
@@ -420,6 +434,8 @@ impl Report {
             "samples": self.samples,
             "exhaustive_subspaces": self.exhaustive,
             "notes": self.notes,
+            "distinct_is_lower_bound": self.digests_dropped > 0,
+            "nontrivial_evaluations_not_tracked_for_distinctness": self.digests_dropped,
             "violations": self.violations.values().map(|v| json!({
                 "signature": v.signature, "count": v.count, "detail": v.detail, "item": v.item,
             })).collect::<Vec<_>>(),
